@@ -14,7 +14,7 @@ pub fn def() -> PropDef {
         job_level,
         run_job,
         replay,
-        rule: "complete finite spaces: (a) all 65536 u16 values through OsCode::from_u16/as_u16 (round trip is the identity; nothing above KEY_MAX is a key); (b) the discriminant sets of `enum OsCode` (parser/src/keys/mod.rs) and `enum KeyCode` (keyberon/src/key_code.rs) read from the SOURCE TEXT of the working tree are equal value for value (soundness of the transmute), and every `N => Some(OsCode::X)` arm of from_u16_linux agrees with X's discriminant; (c) every key name in the match arms of str_to_oscode (scraped from source): same code through the real function, and through a real config `(defsrc NAME)(deflayer l NAME)` pressing that code outputs that code; (d) every code 0..767 through the full pipeline in three configs: mapped to itself (named via deflocalkeys when it has no name), transparent on a held second layer, and unmapped with process-unmapped-keys yes: press, one OS auto-repeat, release: the OS code that comes out (press, forwarded repeat, release) equals the one that went in, reserved no-op codes 0x2a4..0x2ad are never sent; (e) exception lists written in EVERY order (all ordered selections of 2..4 keys from a 5-key pool spanning low and high codes): no listed key is intercepted; mapped-key sets: all defsrc subsets of a 4-key pool x deflayermap inputs subsets of 2 keys x exception lists subsets of 2 keys x process-unmapped-keys {no, yes, all-except}: Cfg.mapped_keys == defsrc + deflayermap inputs (+ all known keys - exceptions). distinct = distinct (case, outcome) classes.",
+        rule: "complete finite spaces: (a) all 65536 u16 values through OsCode::from_u16/as_u16 (round trip is the identity; nothing above KEY_MAX is a key); (b) the discriminant sets of `enum OsCode` (parser/src/keys/mod.rs) and `enum KeyCode` (keyberon/src/key_code.rs) read from the SOURCE TEXT of the working tree are equal value for value (soundness of the transmute), and every `N => Some(OsCode::X)` arm of from_u16_linux agrees with X's discriminant; (c) every key name in the match arms of str_to_oscode (scraped from source): same code through the real function, and through a real config `(defsrc NAME)(deflayer l NAME)` pressing that code outputs that code; (d) every code 0..767 through the full pipeline in three configs: mapped to itself (named via deflocalkeys when it has no name), transparent on a held second layer, and unmapped with process-unmapped-keys yes: press, one OS auto-repeat, release: the OS code that comes out (press, forwarded repeat, release) equals the one that went in, reserved no-op codes 0x2a4..0x2ad are never sent; (d2) built-in key names redefined by deflocalkeys (a letter or digit given another code): the name denotes the new code in defsrc and in actions, the intercepted set holds the new code only; (e) exception lists written in EVERY order (all ordered selections of 2..4 keys from a 5-key pool spanning low and high codes): no listed key is intercepted; mapped-key sets: all defsrc subsets of a 4-key pool x deflayermap inputs subsets of 2 keys x exception lists subsets of 2 keys x process-unmapped-keys {no, yes, all-except}: Cfg.mapped_keys == defsrc + deflayermap inputs (+ all known keys - exceptions). distinct = distinct (case, outcome) classes.",
         assumptions: &["the OS-level pass-through branch of event_loop (evdev) is not executed; the set it consults (mapped keys) is what is checked", "Linux code space (the build target)"],
         required_level,
         min_outcomes: 3,
@@ -308,6 +308,58 @@ fn job_codes(variant: usize, st: &mut Stats) {
     st.sample(json!({"family": "codes through the pipeline", "variant": vname, "checked": checked}));
 }
 
+/// deflocalkeys may give a name that is also built in (a letter, a digit) another code: the name then
+/// denotes THAT code wherever it is written (defsrc, action, exception list).
+fn job_redefined_names(st: &mut Stats) {
+    let pairs: [(&str, u16); 6] = [("a", 16), ("q", 30), ("z", 17), ("1", 40), ("m", 39), ("b", 100)];
+    let mut n = 0;
+    for (name, code) in pairs {
+        let builtin = kanata_parser::keys::str_to_oscode(name).map(|o| o.as_u16());
+        // the custom table is process-global: parse a config WITHOUT deflocalkeys first so that the lookup above is the built-in one
+        let cfg = format!("(deflocalkeys-linux {name} {code})\n(defcfg)\n(defsrc {name})\n(deflayer l {name})\n");
+        st.evaluations += 1;
+        n += 1;
+        let r = crate::sim::guarded(|| kanata_parser::cfg::new_from_str(&cfg, Default::default()));
+        match r {
+            Err(p) => {
+                st.violation(viol("redefined-name-panic", p, &cfg));
+                return;
+            }
+            Ok(Err(_)) => {
+                st.configs_rejected += 1;
+                continue;
+            }
+            Ok(Ok(c)) => {
+                st.configs_accepted += 1;
+                let got: Vec<u16> = c.mapped_keys.iter().map(|o| o.as_u16()).collect();
+                if got != vec![code] {
+                    st.violation(viol("redefined-name/mapped-keys", format!("(deflocalkeys-linux {name} {code}) (defsrc {name}): the intercepted set is {got:?}, expected [{code}] (built-in code of the name: {builtin:?})"), &cfg));
+                    return;
+                }
+            }
+        }
+        // through the pipeline: the redefined code comes out as itself, the name's built-in code is not mapped
+        match press_release(&cfg, &[], code) {
+            Err(e) => {
+                st.violation(viol("redefined-name-error", e.chars().take(200).collect(), &cfg));
+                return;
+            }
+            Ok(outs) => {
+                let want = keyname(code).unwrap_or_default();
+                let expect = vec![Out::Down(want.clone()), Out::Down(want.clone()), Out::Up(want.clone())];
+                if outs != expect {
+                    st.violation(viol("redefined-name/identity", format!("(deflocalkeys-linux {name} {code}), defsrc and layer written with {name}: pressing code {code} outputs {outs:?}, expected {expect:?}"), &cfg));
+                    return;
+                }
+            }
+        }
+    }
+    // leave the process-global name table in its default state for whatever runs next in this worker
+    let _ = kanata_parser::cfg::new_from_str("(defsrc a)(deflayer l a)", Default::default());
+    st.count("redefined_builtin_names", n);
+    st.outcome("redefined-names-ok");
+}
+
 fn job_mapped_keys(st: &mut Stats) {
     let pool = ["a", "b", "c", "d"];
     let lm = ["e", "f"];
@@ -433,6 +485,7 @@ fn run_job(_tier: Tier, idx: usize, st: &mut Stats) {
         4 => job_codes(1, st),
         5 => job_codes(2, st),
         6 => job_mapped_keys(st),
+        7 => job_redefined_names(st),
         _ => {
             st.outcome("noop");
         }
